@@ -295,12 +295,26 @@ Definition covers (a n : string) : bool := String.eqb a n || String.eqb a "".
 
 Definition is2xx (c : nat) : bool := Nat.leb 200 c && Nat.ltb c 300.
 
+(* The verb and the resource a SubjectAccessReview has to name for an access of the given kind. *)
+Definition verb_of (o : op) : string :=
+  match o with OGet => "get" | OList => "list" | OCreate => "create" | OUpdate => "update" | ODelete => "delete" end.
+
+Definition plural_of (k : kind) : string :=
+  match k with
+  | KExperiment => "experiments" | KTrial => "trials" | KSuggestion => "suggestions" | KConfigMap => "configmaps"
+  | KNamespace => "namespaces" | KPod => "pods" | KPodLog => "pods/log" | KObsLog => "observationlogs" | KOther s => s
+  end.
+
 (* [safe]: declarative statement.
    1. every access to namespaced data in namespace n is preceded, in the same request, by an allowing
       SubjectAccessReview covering n;
    2. every object of namespace n in a 2xx body is covered by an allowing review of the request;
    3. a denying review is the last effect of the request and the answer is 401 or 403;
-   4. every review is issued for the user named by the request header, which is present. *)
+   4. every review is issued for the user named by the request header, which is present;
+   5. every WRITE (create / update / delete) of namespaced data of kind k in namespace n is preceded by an allowing
+      review covering n whose verb and resource are exactly those of the write (verb_of o, plural_of k).
+      Reads only need clause 1: the handlers read related objects after one review (delete_experiment lists the
+      experiments after its delete review), which is not demanded to match. *)
 Definition allowed_in (evs : list event) (n : string) : Prop :=
   exists u v r a, In (EAuth u v r a true) evs /\ covers a n = true.
 
@@ -309,7 +323,9 @@ Definition safe (rq : req) (t : trace) : Prop :=
   (is2xx (t_status t) = true -> forall n, In n (t_body t) -> allowed_in (t_evs t) n) /\
   (forall pre u v r n post, t_evs t = pre ++ EAuth u v r n false :: post ->
      post = [] /\ (t_status t = 401 \/ t_status t = 403)) /\
-  (forall u v r n b, In (EAuth u v r n b) (t_evs t) -> u = eff_user rq /\ r_header rq <> "").
+  (forall u v r n b, In (EAuth u v r n b) (t_evs t) -> u = eff_user rq /\ r_header rq <> "") /\
+  (forall pre o k n post, t_evs t = pre ++ EAcc o k n :: post -> namespaced k = true -> is_read o = false ->
+     exists u a, In (EAuth u (verb_of o) (plural_of k) a true) pre /\ covers a n = true).
 
 (* [safeb]: the boolean monitor (evaluated on implementation traces). *)
 Fixpoint scan (user : string) (hdr : bool) (status : nat) (allowed : list string) (l : list event) : option (list string) :=
@@ -327,7 +343,21 @@ Fixpoint scan (user : string) (hdr : bool) (status : nat) (allowed : list string
       if negb (namespaced k) || existsb (fun a => covers a n) allowed then scan user hdr status allowed rest else None
   end.
 
+(* clause 5: W collects (verb, resource, namespace) of the allowing reviews seen so far *)
+Definition wcovl (W : list (string * string * string)) (v r n : string) : bool :=
+  existsb (fun t => match t with (v', r', a) => String.eqb v v' && String.eqb r r' && covers a n end) W.
+
+Fixpoint wscan (W : list (string * string * string)) (l : list event) : bool :=
+  match l with
+  | [] => true
+  | EAuth _ v r n true :: rest => wscan ((v, r, n) :: W) rest
+  | EAuth _ _ _ _ false :: rest => wscan W rest
+  | EAcc o k n :: rest =>
+      (is_read o || negb (namespaced k) || wcovl W (verb_of o) (plural_of k) n) && wscan W rest
+  end.
+
 Definition safeb (rq : req) (t : trace) : bool :=
+  wscan [] (t_evs t) &&
   match scan (eff_user rq) (negb (String.eqb (r_header rq) "")) (t_status t) [] (t_evs t) with
   | None => false
   | Some allowed =>
@@ -343,41 +373,53 @@ Definition nsexpr_eqb (a b : nsexpr) : bool :=
   | _, _ => false
   end.
 
-Definition amem (e : nsexpr) (A : list nsexpr) : bool := existsb (nsexpr_eqb e) A.
+(* an entry of the checker's context: a namespace expression known to be authorised, with the verb and resource
+   of the (standard-guarded) review that established it; None = an object returned by an authorised read *)
+Definition aent := (option (string * string) * nsexpr)%type.
 
-Definition drop_var (v : nat) (A : list nsexpr) : list nsexpr :=
-  filter (fun e => match e with NsVar w => negb (Nat.eqb v w) | _ => true end) A.
+Definition rmem (e : nsexpr) (A : list aent) : bool := existsb (fun a => nsexpr_eqb e (snd a)) A.
+Definition wmem (v r : string) (e : nsexpr) (A : list aent) : bool :=
+  existsb (fun a => match fst a with
+                    | Some (v', r') => String.eqb v v' && String.eqb r r'
+                    | None => false
+                    end && nsexpr_eqb e (snd a)) A.
+
+Definition drop_var (v : nat) (A : list aent) : list aent :=
+  filter (fun a => match snd a with NsVar w => negb (Nat.eqb v w) | _ => true end) A.
 
 (* [chk A h] = Some A' : every access of h is dominated by a standard-guarded authorisation of the same
-   namespace expression, given that the expressions of A are already authorised; A' holds after h. *)
-Fixpoint chk (A : list nsexpr) (i : instr) {struct i} : option (list nsexpr) :=
-  let fix chks (A : list nsexpr) (l : list instr) {struct l} : option (list nsexpr) :=
+   namespace expression — for writes: with the verb and resource of the write —, given that the entries of A are
+   already authorised; A' holds after h. *)
+Fixpoint chk (A : list aent) (i : instr) {struct i} : option (list aent) :=
+  let fix chks (A : list aent) (l : list instr) {struct l} : option (list aent) :=
     match l with
     | [] => Some A
     | a :: r => match chk A a with Some A' => chks A' r | None => None end
     end in
-  let ok (o : option (list nsexpr)) := match o with Some _ => true | None => false end in
+  let ok (o : option (list aent)) := match o with Some _ => true | None => false end in
   match i with
   | RequireParam _ _ | IndexParam _ | RequireKey _ _ | AssertStr _ | LibGuard _ _
   | Guard _ | GuardUnlessNotFound _ | DefaultNames _ _ | Respond _ | LibErr _ | Fail _ => Some A
-  | Auth _ _ e g =>
+  | Auth v r e g =>
       match g, e with
       | GStd, NsUnknown _ => None
-      | GStd, _ => Some (e :: A)
+      | GStd, _ => Some ((Some (v, r), e) :: A)
       | _, _ => None
       end
-  | Access _ k e _ => if negb (namespaced k) || amem e A then Some A else None
+  | Access o k e _ =>
+      if negb (namespaced k) || (if is_read o then rmem e A else wmem (verb_of o) (plural_of k) e A)
+      then Some A else None
   | IfErr b | IfOk b => if ok (chks A b) then Some A else None
   | ForEachName v _ b => if ok (chks (drop_var v A) b) then Some (drop_var v A) else None
-  | ForEachObj v _ b => if ok (chks (NsVar v :: drop_var v A) b) then Some (drop_var v A) else None
+  | ForEachObj v _ b => if ok (chks ((None, NsVar v) :: drop_var v A) b) then Some (drop_var v A) else None
   | IfNsEq _ _ a b => if ok (chks A a) && ok (chks A b) then Some A else None
   | Alt a b => if ok (chks A a) && ok (chks A b) then Some A else None
   | Repeat b => if ok (chks A b) then Some A else None
   | Unknown _ => None
   end.
 
-Definition chks : list nsexpr -> list instr -> option (list nsexpr) :=
-  fix chks (A : list nsexpr) (l : list instr) {struct l} : option (list nsexpr) :=
+Definition chks : list aent -> list instr -> option (list aent) :=
+  fix chks (A : list aent) (l : list instr) {struct l} : option (list aent) :=
     match l with
     | [] => Some A
     | a :: r => match chk A a with Some A' => chks A' r | None => None end
